@@ -302,3 +302,214 @@ Proof.
         intros t Ht. left. apply (Hres_h x n t Hn Hr Ht).
 Qed.
 End RotH.
+
+(* ---------- facts about the resolved leaf graph ---------- *)
+Lemma ekeys_RL_gen h0 h x :
+  In x (map fst (flat_map (fun n => if is_region n then [] else [(n_name n, rl h0 n)]) h)) -> In x (Hier.names h).
+Proof.
+  induction h as [|n r IH]; cbn [flat_map map]; [tauto|].
+  destruct (is_region n); cbn [app map fst]; [intros H; right; apply IH; exact H|].
+  intros [<-|H]; [left; reflexivity|right; apply IH; exact H].
+Qed.
+
+Lemma ekeys_RL h x : In x (ekeys (RL h)) -> In x (Hier.names h).
+Proof. apply ekeys_RL_gen. Qed.
+
+Lemma RL_closed h : NoDup (Hier.names h) ->
+  (forall x n t, find h x = Some n -> is_region n = false -> In t (n_jt n) -> enter_flat h (S (length h)) t <> None) ->
+  forall x b t, efind (RL h) x = Some b -> In t (e_jt b) -> efind (RL h) t <> None.
+Proof.
+  intros Hnd Hres x b t Hb Ht. unfold RL in *. rewrite (efind_RL_gen h h x Hnd) in Hb.
+  destruct (find h x) as [n|] eqn:Hn; [|discriminate]. destruct (is_region n) eqn:Hr; [discriminate|].
+  injection Hb as <-. cbn [rl e_jt] in Ht. apply in_map_iff in Ht as [t0 [<- Ht0]].
+  destruct (enter_flat h (S (length h)) t0) as [c|] eqn:E; [|exfalso; exact (Hres x n t0 Hn Hr Ht0 E)].
+  unfold rho. rewrite E. destruct (enter_flat_result h _ _ _ E) as [nc [Hc Hlc]].
+  rewrite (efind_RL_gen h h c Hnd), Hc, Hlc. discriminate.
+Qed.
+
+Lemma efind_RL' h x : NoDup (Hier.names h) -> efind (RL h) x =
+  match find h x with Some n => if is_region n then None else Some (rl h n) | None => None end.
+Proof. intros H. unfold RL. apply efind_RL_gen. exact H. Qed.
+
+Lemma rho_fresh h t : find h t = None -> rho h t = t.
+Proof. intros H. unfold rho. cbn [enter_flat]. rewrite H. reflexivity. Qed.
+
+Lemma rho_leaf h t n : find h t = Some n -> is_region n = false -> rho h t = t.
+Proof. intros H Hl. unfold rho. rewrite (enter_flat_leaf h t n _ H Hl). reflexivity. Qed.
+
+(* ---------- the theorem ---------- *)
+Section Final.
+Variables (h : hier) (lvl top hd : name) (nl : node) (exits todo : list name) (isback : name -> name -> bool)
+          (latch sexit : name) (ev bv : Z) (names : list name) (g1 g1' : egraph) (strict : bool).
+Let h' := write_back h lvl g1'.
+Let rh := rho h.
+Let needs : bool := match exits with _ :: _ :: _ => true | _ => false end.
+Let dl : list name :=
+  exits ++ hd :: latch :: sexit :: names ++
+  flat_map (fun p => match efind g1 p with Some b => e_jt b ++ e_be b | None => [] end) todo.
+
+(* the model: the level's dictionary, rotated, written back *)
+Hypothesis Hl : find h lvl = Some nl.
+Hypothesis Hlr : is_region nl = true.
+Hypothesis HLG : collect h (children_h nl) = Some g1.
+Hypothesis Hrot1 : loop_rotate g1 hd [hd] exits todo false [] isback latch sexit ev bv names = Ok g1'.
+(* both hierarchies: distinct names, top unused, no plain block of the class reserved for original blocks,
+   every successor / declared back edge / table target of a block resolves, table targets are successors *)
+Hypothesis Hnd_h : NoDup (Hier.names h).
+Hypothesis Htop_h : ~ In top (Hier.names h).
+Hypothesis Hplain_h : forall n, In n h -> n_kind n <> KPlain 100.
+Hypothesis Hres_h : forall x n t, find h x = Some n -> is_region n = false -> In t (node_targets n) ->
+  enter_flat h (S (length h)) t <> None.
+Hypothesis Htab_h : forall x n c v tbl z t, find h x = Some n -> n_kind n = KBranch c v tbl ->
+  zassoc z tbl = Some t -> In t (n_jt n).
+Hypothesis Hnd_h' : NoDup (Hier.names h').
+Hypothesis Htop_h' : ~ In top (Hier.names h').
+Hypothesis Hplain_h' : forall n, In n h' -> n_kind n <> KPlain 100.
+Hypothesis Hres_h' : forall x n t, find h' x = Some n -> is_region n = false -> In t (n_jt n) ->
+  enter_flat h' (S (length h')) t <> None.
+Hypothesis Htab_h' : forall x n c v tbl z t, find h' x = Some n -> n_kind n = KBranch c v tbl ->
+  zassoc z tbl = Some t -> In t (n_jt n).
+(* the rotated dictionary *)
+Hypothesis Hkeys' : NoDup (ekeys g1').
+Hypothesis Hlvl' : efind g1' lvl = None.
+Hypothesis Hstay : forall p, In p todo -> efind g1' p <> None.
+Hypothesis Hkind : forall p b b', In p todo -> efind g1 p = Some b -> efind g1' p = Some b' -> e_kind b' = e_kind b.
+Hypothesis Hres_new : forall x b t, (In x todo \/ In x names \/ x = latch \/ x = sexit) -> efind g1' x = Some b ->
+  In t (blk_targets b) -> enter_flat h (S (length h)) t <> None \/ find h t = None.
+(* the arguments *)
+Hypothesis Hfresh : forall x, (In x names \/ x = latch \/ x = sexit) -> find h x = None.
+Hypothesis Htodo_h : forall p, In p todo -> exists n, find h p = Some n /\ is_region n = false /\
+  zmem p (children_h nl) = true /\ (forall c v t, n_kind n <> KBranch c v t).
+Hypothesis Hndt : NoDup todo.
+Hypothesis Hndn : NoDup names.
+Hypothesis Hnt : forall a, In a names -> ~ In a todo.
+Hypothesis Hhd_leaf : exists n, find h hd = Some n /\ is_region n = false.
+(* distinct names that matter resolve to distinct blocks *)
+Hypothesis Hinj : forall a b, In a dl -> In b dl -> rh a = rh b -> a = b.
+(* the hypotheses of the flat theorem, on the resolved leaf graph *)
+Hypothesis HG_todo : forall p, In p todo -> exists b, efind (RL h) p = Some b /\ nonbranch b /\ e_be b = [] /\
+  NoDup (e_jt b) /\ (forall a, In a names -> ~ In a (e_jt b)).
+Hypothesis HG_names : forall a, In a names -> a <> latch /\ a <> sexit /\ a <> top.
+Hypothesis HG_latch : latch <> top /\ ~ In latch todo.
+Hypothesis HG_sexit : needs = true -> sexit <> latch /\ sexit <> top /\ ~ In sexit todo.
+Hypothesis HG_exits : NoDup (map rh exits) /\ (forall x, In x (map rh exits) -> In x (ekeys (RL h))) /\ ~ In hd (map rh exits).
+Hypothesis HG_vars : ev <> bv /\ forall x b, efind (RL h) x = Some b ->
+  match e_kind b with
+  | EAssign a => forall p, In p a -> fst p <> ev /\ fst p <> bv
+  | EBranch _ v _ => v <> ev /\ v <> bv
+  | EPlain _ => True
+  end.
+
+Let K := fun x => In x todo \/ In x names \/ x = latch \/ x = sexit.
+
+Lemma Hres_jt : forall x n t, find h x = Some n -> is_region n = false -> In t (n_jt n) ->
+  enter_flat h (S (length h)) t <> None.
+Proof. intros x n t Hn Hr Ht. apply (Hres_h x n t Hn Hr). unfold node_targets. apply in_or_app. left. exact Ht. Qed.
+
+Lemma efind_g1' x : efind g1 x = if zmem x (children_h nl) then option_map eblk_of (find h x) else None.
+Proof. apply (efind_collect h _ _ _ HLG). Qed.
+
+Lemma efind_G x : efind (RL h) x =
+  match find h x with Some n => if is_region n then None else Some (rl h n) | None => None end.
+Proof. unfold RL. apply efind_RL_gen. exact Hnd_h. Qed.
+
+Lemma rel_g1_G : Rel rh K g1 (RL h).
+Proof.
+  intros x [Hx|Hx].
+  - destruct (Htodo_h x Hx) as [n [Hn [Hr [Hz _]]]]. rewrite efind_G, efind_g1', Hn, Hr, Hz. cbn [option_map].
+    unfold rh. rewrite mapb_eblk_of. reflexivity.
+  - rewrite efind_G, efind_g1', (Hfresh x Hx). destruct (zmem x (children_h nl)); reflexivity.
+Qed.
+
+Lemma in_dl_todo p b t : In p todo -> efind g1 p = Some b -> In t (e_jt b ++ e_be b) -> In t dl.
+Proof.
+  intros Hp Hb Ht. unfold dl. apply in_or_app. right. right. right. right. apply in_or_app. right.
+  apply in_flat_map. exists p. split; [exact Hp|]. rewrite Hb. exact Ht.
+Qed.
+
+Theorem loop_rotate_h_keeps_walks : forall n e e' ds tr st,
+  (exists b p, find h n = Some b /\ n_kind b = KOrig p) ->
+  E (Fl ev bv) e e' ->
+  WTrace h (resolve_flat h) strict n e ds tr st -> WTrace h' (resolve_flat h') strict n e' ds tr st.
+Proof.
+  intros n e e' ds tr st [bn [pn [Hbn Hkn]]] He W.
+  destruct Hhd_leaf as [nhd [Hhd Hhdl]].
+  (* the rotation of the resolved leaf graph *)
+  destruct (loop_rotate_rho rh (fun x => In x dl) Hinj g1 (RL h) hd [hd] exits todo false [] isback latch sexit ev bv names g1' Hrot1)
+    as [G' [EG' [HKrel HF]]].
+  - exact rel_g1_G.
+  - exact Hndt.
+  - exact Hndn.
+  - intros x [<-|[]]. split; [apply (rho_leaf h hd nhd Hhd Hhdl)|]. unfold dl. apply in_or_app. right. left. reflexivity.
+  - intros x Hx. unfold dl. apply in_or_app. left. exact Hx.
+  - apply (rho_leaf h hd nhd Hhd Hhdl).
+  - unfold dl. apply in_or_app. right. left. reflexivity.
+  - apply rho_fresh. apply Hfresh. right. left. reflexivity.
+  - unfold dl. apply in_or_app. right. right. left. reflexivity.
+  - apply rho_fresh. apply Hfresh. right. right. reflexivity.
+  - unfold dl. apply in_or_app. right. right. right. left. reflexivity.
+  - intros p Hp. destruct (Htodo_h p Hp) as [np [Hnp [Hr [Hz Hnb]]]].
+    assert (Eg : efind g1 p = Some (eblk_of np)) by (rewrite efind_g1', Hz, Hnp; reflexivity).
+    exists (eblk_of np). split; [exact Eg|]. split.
+    + unfold nonbranch, eblk_of. cbn. intros cc v t. destruct (n_kind np) eqn:Ek; cbn; try discriminate. exfalso. eapply Hnb; eauto.
+    + split; intros y Hy; apply (in_dl_todo p (eblk_of np) y Hp Eg); apply in_or_app; [left|right]; exact Hy.
+  - intros a Ha. split; [unfold dl; apply in_or_app; right; right; right; right; apply in_or_app; left; exact Ha|].
+    split; [apply rho_fresh; apply Hfresh; left; exact Ha|apply Hnt; exact Ha].
+  - (* the chain *)
+    assert (Horig' : exists b' p', find h' n = Some b' /\ n_kind b' = KOrig p').
+    { assert (Hnl : n <> lvl) by (intros ->; rewrite Hl in Hbn; injection Hbn as <-; unfold is_region in Hlr; rewrite Hkn in Hlr; discriminate).
+      unfold h'. rewrite (find_write_back h lvl g1' n nl Hkeys' Hl Hlvl' Hnl).
+      destruct (efind g1' n) as [b'|] eqn:Eb; [|eauto].
+      eexists. exists pn. split; [reflexivity|]. unfold node_back. rewrite Hbn. cbn [n_kind].
+      destruct (in_dec Z.eq_dec n todo) as [Ht|Hnt0].
+      - destruct (Htodo_h n Ht) as [n0 [Hn0 [_ [Hz _]]]]. rewrite Hbn in Hn0. injection Hn0 as <-.
+        assert (Eg : efind g1 n = Some (eblk_of bn)) by (rewrite efind_g1', Hz, Hbn; reflexivity).
+        rewrite (Hkind n _ _ Ht Eg Eb). cbn [eblk_of e_kind]. rewrite Hkn. reflexivity.
+      - assert (NK : ~ K n).
+        { intros [H|H]; [contradiction|]. rewrite (Hfresh n H) in Hbn. discriminate. }
+        destruct (HF n NK) as [A _]. rewrite A, efind_g1' in Eb. destruct (zmem n (children_h nl)); [|discriminate].
+        rewrite Hbn in Eb. injection Eb as <-. cbn [eblk_of e_kind]. rewrite Hkn. reflexivity. }
+    (* 1: h is its resolved leaf graph *)
+    apply (proj1 (flatten_walk h top strict Hnd_h Htop_h Hplain_h Hres_jt Htab_h n e ds tr st (ex_intro _ bn (ex_intro _ pn (conj Hbn Hkn))))) in W.
+    (* 2: the rotation of a flat graph keeps the walk *)
+    assert (HnG : exists b, efind (RL h) n = Some b /\ e_kind b = EPlain 100).
+    { exists (rl h bn). split; [rewrite efind_G, Hbn; unfold is_region; rewrite Hkn; reflexivity|]. unfold rl. cbn. rewrite Hkn. reflexivity. }
+    assert (W2 : WTrace (ehier top G') (resolve_flat (ehier top G')) strict n e' ds tr st).
+    { eapply (loop_rotate_keeps_walks (RL h) top hd (map rh exits) todo isback latch sexit ev bv names G' strict EG').
+      - split; [exact Hndt|exact HG_todo].
+      - split; [exact Hndn|]. intros a Ha. destruct (HG_names a Ha) as [A [B C]].
+        split; [rewrite efind_G, (Hfresh a (or_introl Ha)); reflexivity|]. split; [apply Hnt; exact Ha|auto].
+      - split; [rewrite efind_G, (Hfresh latch (or_intror (or_introl eq_refl))); reflexivity|exact HG_latch].
+      - intros Hn. rewrite needs_map in Hn. split; [rewrite efind_G, (Hfresh sexit (or_intror (or_intror eq_refl))); reflexivity|apply HG_sexit; exact Hn].
+      - exact HG_exits.
+      - eapply efind_keys. rewrite efind_G, Hhd, Hhdl. reflexivity.
+      - intros Hi. apply Htop_h. apply ekeys_RL. exact Hi.
+      - intros x b t Hb Ht. destruct (efind (RL h) t) as [bt|] eqn:Et; [eapply efind_keys; eauto|].
+        exfalso. exact (RL_closed h Hnd_h Hres_jt x b t Hb Ht Et).
+      - exact HG_vars.
+      - exact HnG.
+      - exact He.
+      - exact W. }
+    (* 3: the rotated leaf graph is the leaf graph of the result *)
+    assert (Hlink : forall x, efind (RL h') x = efind G' x).
+    { assert (HtodoW : forall p, In p todo -> exists n0, find h p = Some n0 /\ is_region n0 = false /\ zmem p (children_h nl) = true).
+      { intros p Hp. destruct (Htodo_h p Hp) as [np [A [B [C _]]]]. eauto. }
+      assert (HkindW : forall p b b', In p todo -> efind g1 p = Some b -> efind g1' p = Some b' ->
+                 match e_kind b' with EBranch _ _ _ => True | k => k = e_kind b end).
+      { intros p b b' Hp Hb Hb'. rewrite (Hkind p b b' Hp Hb Hb'). destruct (e_kind b); reflexivity. }
+      intros x. unfold h'.
+      exact (link h lvl nl todo names latch sexit g1 g1' G' Hl Hlr HLG Hnd_h Hkeys' Hlvl' Hfresh HtodoW Hstay HkindW
+                  HKrel (fun x0 NK => proj1 (HF x0 NK)) (fun x0 NK => proj2 (HF x0 NK)) Hres_h Hres_new Hnd_h' x). }
+    assert (W3 : WTrace (ehier top (RL h')) (resolve_flat (ehier top (RL h'))) strict n e' ds tr st).
+    { destruct Horig' as [b' [p' [Hb' Hk']]].
+      assert (HnG' : exists b, efind (RL h') n = Some b /\ e_kind b = EPlain 100).
+      { exists (rl h' b'). split; [rewrite (efind_RL' h' n Hnd_h'), Hb'; unfold is_region; rewrite Hk'; reflexivity|].
+        unfold rl. cbn. rewrite Hk'. reflexivity. }
+      apply (proj2 (ehier_congr (RL h') G' top strict Hlink
+                      (fun Hi => Htop_h' (ekeys_RL h' top Hi))
+                      (RL_closed h' Hnd_h' Hres_h') n e' ds tr st HnG')).
+      exact W2. }
+    (* 4: and that is the walk of the result *)
+    exact (proj2 (flatten_walk h' top strict Hnd_h' Htop_h' Hplain_h' Hres_h' Htab_h' n e' ds tr st Horig') W3).
+Qed.
+End Final.
